@@ -1,5 +1,6 @@
 import CoreBGP.Model.Peer
 import CoreBGP.Lemmas.Peer
+import CoreBGP.Lemmas.PeerLocal
 /-!
 # C07 — connection collision is resolved per RFC 4271 §6.8, in every arrival order
 
@@ -9,6 +10,7 @@ import CoreBGP.Lemmas.Peer
 -/
 namespace CoreBGP.Props.C07
 open CoreBGP CoreBGP.Model
+open CoreBGP.Lemmas.PeerLocal
 
 /-- the dominance computation of `handleStateTransition` -/
 def dominantOf (localID remoteID localAS remoteAS : UInt32) : Bool :=
@@ -18,7 +20,9 @@ def dominantOf (localID remoteID localAS remoteAS : UInt32) : Bool :=
 theorem dominant_iff (localID remoteID localAS remoteAS : UInt32) :
     dominantOf localID remoteID localAS remoteAS = true ↔
       (localID.toNat > remoteID.toNat ∨ (localID.toNat = remoteID.toNat ∧ localAS.toNat > remoteAS.toNat)) := by
-  sorry
+  unfold dominantOf
+  simp only [Bool.or_eq_true, Bool.and_eq_true, decide_eq_true_eq, beq_iff_eq, gt_iff_lt,
+    UInt32.lt_iff_toNat_lt, ← UInt32.toNat_inj]
 
 /-- the FSM whose connection was initiated by the dominant speaker -/
 def initiatedByDominant (s : PState) : Dir := if s.dominant then .out else .inn
@@ -30,19 +34,26 @@ theorem collision_table (s : PState) (i : Dir) (frm : St)
     (hfrm : ¬ (i = .inn ∧ St.openConfirm.rank < frm.rank)) (ho : s.st i.other = .openConfirm) :
     expandHandle s i ⟨frm, .openConfirm⟩ =
       if i = initiatedByDominant s then [.collSel i ⟨frm, .openConfirm⟩] else [.disableLog i] := by
-  sorry
+  have h1 : ¬ ((⟨frm, .openConfirm⟩ : Trans).to = .established) := by simp
+  unfold expandHandle
+  rw [if_neg h1, if_neg hfrm, if_pos rfl, ho]
+  unfold initiatedByDominant
+  cases i <;> cases hd : s.dominant <;> simp
 
 /-- an OpenConfirm request while the other FSM is Established stops the requester -/
 theorem established_wins (s : PState) (i : Dir) (frm : St)
     (hfrm : ¬ (i = .inn ∧ St.openConfirm.rank < frm.rank)) (ho : s.st i.other = .established) :
     expandHandle s i ⟨frm, .openConfirm⟩ = [.disableLog i] := by
-  sorry
+  have h1 : ¬ ((⟨frm, .openConfirm⟩ : Trans).to = .established) := by simp
+  unfold expandHandle
+  rw [if_neg h1, if_neg hfrm, if_pos rfl, ho]
 
 /-- approval of Established is always preceded (adjacent instruction) by the complete stop of the
 other FSM -/
 theorem establish_stops_other (s : PState) (i : Dir) (frm : St) :
     expandHandle s i ⟨frm, .established⟩ = [.disableLog i.other, .sendT i ⟨frm, .established⟩] := by
-  sorry
+  unfold expandHandle
+  rw [if_pos rfl]
 
 /-- whichever way the kill-vs-own-transition `select` resolves, exactly one of the two continues:
 either the other FSM is stopped and the requester gets its transition, or the other FSM had already
@@ -54,13 +65,57 @@ theorem select_outcomes (s : PState) (i : Dir) (t : Trans) (rest : List Instr) :
       s'.todo = .disableLog i.other :: .sendT i t :: rest ∨
       (∃ ot, ot.to = .established ∧ s'.todo = .disableLog i :: .handle i.other ot :: rest) ∨
       (∃ ot, ot.to ≠ .established ∧ s'.todo = .sendT i t :: .handle i.other ot :: rest) := by
-  sorry
+  intro l s' h
+  simp only [pInstr, List.mem_append] at h
+  rcases h with (h | h) | h
+  · split at h
+    · rw [List.mem_singleton] at h
+      obtain ⟨-, rfl⟩ := Prod.mk.inj h
+      left; rfl
+    · simp at h
+  · split at h
+    · rw [List.mem_map] at h
+      obtain ⟨⟨l0, o'⟩, _, he⟩ := h
+      obtain ⟨-, rfl⟩ := Prod.mk.inj he
+      right; left
+      simp
+    · simp at h
+  · split at h
+    · rename_i ot _
+      rw [List.mem_singleton] at h
+      obtain ⟨-, rfl⟩ := Prod.mk.inj h
+      by_cases hot : ot.to = .established
+      · right; right; left
+        refine ⟨ot, hot, ?_⟩
+        simp [hot]
+      · right; right; right
+        refine ⟨ot, hot, ?_⟩
+        simp [hot]
+    · simp at h
 
 /-- the survivor's connection is not touched by the collision step: only the other FSM's component
 (and the manager's) change -/
 theorem survivor_untouched (s : PState) (i : Dir) (t : Trans) (rest : List Instr) :
     ∀ l s', (l, s') ∈ pInstr s (.collSel i t) rest → s'.f i = s.f i := by
-  sorry
+  intro l s' h
+  simp only [pInstr, List.mem_append] at h
+  rcases h with (h | h) | h
+  · split at h
+    · rw [List.mem_singleton] at h
+      obtain ⟨-, rfl⟩ := Prod.mk.inj h
+      simp
+    · simp at h
+  · split at h
+    · rw [List.mem_map] at h
+      obtain ⟨⟨l0, o'⟩, _, he⟩ := h
+      obtain ⟨-, rfl⟩ := Prod.mk.inj he
+      simp
+    · simp at h
+  · split at h
+    · rw [List.mem_singleton] at h
+      obtain ⟨-, rfl⟩ := Prod.mk.inj h
+      simp
+    · simp at h
 
 example : dominantOf 0x0a000064 0x0a0000c8 65001 65002 = false := by decide
 
